@@ -1,5 +1,6 @@
 import OrsoVerif.Generated.Profile
 import OrsoVerif.Generated.ProfileExpr
+import OrsoVerif.Generated.ProfileTime
 /-!
 # C15 — column profiles (`orso/profiler/profiler.py`)
 
@@ -311,10 +312,31 @@ def profileNumeric [DecidableEq α] (p : Ops α) (xs : List (Option α)) : Prof 
       order := o
       transitions := t }
 
-/-- `DateProfiler` (`profiler.py:397-418`): the numeric profile of the epoch seconds, without the
-order and transition indicators (they are not copied). -/
+/-- The extreme `DateProfiler` reports in `field`: the field of the numeric profile that the generated table of
+copies (`self.profile.F = numeric_profile.G`) names for it; nothing when the field is not copied. -/
+def copiedExtreme (np : Core) (field : String) : Option Int :=
+  match Gen.ProfileTime.dateCopied.lookup field with
+  | some "minimum" => np.minimum
+  | some "maximum" => np.maximum
+  | _ => none
+
+/-- `field` is copied from the field of the same name. -/
+def copiesField (field : String) : Bool := Gen.ProfileTime.dateCopied.lookup field == some field
+
+/-- `DateProfiler` (`profiler.py:420-452`): count and missing of its own, and the fields it copies from the
+numeric profile of the epoch seconds (by the generated table: minimum, maximum, the most-frequent list, the
+sketch; the order and transition indicators are not copied). -/
 def profileTemporal [DecidableEq α] (p : Ops α) (xs : List (Option α)) : Prof α :=
-  { profileNumeric p xs with order := none, transitions := 0 }
+  let np := profileNumeric p xs
+  { core :=
+      { count := xs.length
+        missing := xs.length - (present xs).length
+        minimum := copiedExtreme np.core "minimum"
+        maximum := copiedExtreme np.core "maximum" }
+    mfv := if copiesField "most_frequent_values" && copiesField "most_frequent_counts" then np.mfv else []
+    kmv := if copiesField "kmv_hashes" then np.kmv else []
+    order := if copiesField "order" then np.order else none
+    transitions := if copiesField "transitions" then np.transitions else 0 }
 
 /-- `VarcharProfiler` (`profiler.py:379-394`): everything but the sketch sees the first
 `SIXTY_FOUR_BYTES` characters (`cut`); whether the sketch sees whole values is the generated statement
